@@ -15,7 +15,7 @@ N_Chans == {"#x"}
 N_Pool == {"a", "m", "mex"}
 N_MyNicks == {"m", "mex", "mx"}
 StateRec == [phase |-> phase, tried |-> tried, snick |-> snick, nick |-> nick, mem |-> mem, kn |-> kn, uh |-> uh, jn |-> jn,
-             topic |-> topic, ktopic |-> ktopic, key |-> key, kkey |-> kkey, lim |-> lim, klim |-> klim, pendMode |-> pendMode, pendWho |-> pendWho,
+             topic |-> topic, ktopic |-> ktopic, key |-> key, kkey |-> kkey, lim |-> lim, klim |-> klim, flags |-> flags, kflags |-> kflags, pendMode |-> pendMode, pendWho |-> pendWho,
              pendNick |-> pendNick, steps |-> steps]
 Emit == PrintT("EDGE " \o ToJson([f |-> StateRec, o |-> lastOp', t |-> StateRec', view |-> View']))
 MCView == state
